@@ -90,6 +90,27 @@ func (k KeySpec) material() (priv, pub, cfg []byte) {
 // keyOptions hands the keys to NewConn the way callers may: spread over one or
 // several WithKeys options (options accumulate).
 func keyOptions(keys []ech.Key) []ech.Option {
+	return append(splitKeyOptions(keys), debugOption(keys)...)
+}
+
+// debugOption: callers pass WithDebug in three ways - not at all, with a nil
+// function (an unset optional hook handed through), or with a function that
+// really formats what it is given. Which one is derived from the key material.
+func debugOption(keys []ech.Key) []ech.Option {
+	sel := len(keys)
+	if len(keys) > 0 && len(keys[0].Config) > 8 {
+		sel += int(keys[0].Config[len(keys[0].Config)/3])
+	}
+	switch sel % 4 {
+	case 1:
+		return []ech.Option{ech.WithDebug(nil)}
+	case 2:
+		return []ech.Option{ech.WithDebug(func(format string, a ...any) { _ = fmt.Sprintf(format, a...) })}
+	}
+	return nil
+}
+
+func splitKeyOptions(keys []ech.Key) []ech.Option {
 	if len(keys) < 2 {
 		return []ech.Option{ech.WithKeys(keys)}
 	}
